@@ -8,8 +8,8 @@ ORACLE_PROP = {'c01': 'C01', 'c02': 'C02', 'c03': 'C03', 'c04': 'C04', 'c05': 'C
                'c16': 'C16'}
 
 
-def synth_jobs(ctx, oracles, n, res_models=(3, 4), econ_models=(1, 2, 3), **synth_kw):
-    cells = gen.grid_cells(res_models=res_models, econ_models=econ_models)
+def synth_jobs(ctx, oracles, n, res_models=(3, 4), econ_models=(1, 2, 3), cells=None, **synth_kw):
+    cells = list(cells) if cells is not None else gen.grid_cells(res_models=res_models, econ_models=econ_models)
     ctx.rng.shuffle(cells)
     jobs = []
     for i in range(n):
